@@ -491,3 +491,20 @@ Example C10_dataset_example :
     | VL [VL [a; _]; b] => VL [VL [a; VL [VL [VQ 5; VQ 6]]]; b] | _ => VErr "shape" end.
 Proof. exact dataset_example. Qed.
 Print Assumptions C10_dataset_example.
+
+(* pixel_spacing, spacing_between_slices, voxel_volume, physical_extent, direction, inverse_affine of a
+   geometry built from attributes return / invert what it was built from *)
+Theorem C10_volume_more_accessors pos r c sr sc ss nf rows cols :
+  orthonormal r c -> 0 < sr -> 0 < sc -> 0 < ss ->
+  exists G a b s0 D B,
+    geom_from_attributes (apos pos) (aori r c) (asp sr sc) ss nf rows cols = Ok G /\
+    g_pixel_spacing G = Some (a, b) /\ a == sr /\ b == sc /\
+    g_spacing_between_slices G = Some s0 /\ s0 == ss /\
+    (exists v, g_voxel_volume G = Some v /\ v == ss * sr * sc) /\
+    (exists e, g_physical_extent G = Some e /\
+               veq e (V3 (inject_Z nf * ss) (inject_Z rows * sr) (inject_Z cols * sc))) /\
+    g_direction G = Some D /\ ortho_cols D /\ veq (norms_sq D) (V3 1 1 1) /\ veq (c2 D) r /\ veq (c1 D) c /\
+    g_inverse_affine G = Ok B /\
+    (forall p, veq (aapply B (aapply (g_aff G) p)) p /\ veq (aapply (g_aff G) (aapply B p)) p).
+Proof. exact (volume_more_accessors pos r c sr sc ss nf rows cols). Qed.
+Print Assumptions C10_volume_more_accessors.
